@@ -36,6 +36,8 @@ def cases(draw, tier):
                 else:
                     durs.append(draw(st.sampled_from([0.25, 0.5, 1, 3])) if op == 'delay' else (p / 2 if p > 0 else None))
         step = {'op': op, 'p': p, 'durs': durs}
+        if not floaty and draw(st.integers(0, 4)) == 0:
+            step['prepare'] = draw(st.sampled_from([0.25, 0.5, 1, 3]))    # ticker object created now, iterated later
         steps = []
         if draw(st.booleans()):
             steps.append({'op': 'sleep', 'd': draw(st.sampled_from([0, 0.5, 1, 2.25]))})
